@@ -295,7 +295,9 @@ impl<'a, R: Read> ChunkedReader<'a, R> {
 
     fn read_chunk_size(&mut self) -> io::Result<()> {
         let mut line = String::new();
-        if self.inner.read_line(&mut line)? == 0 {
+        if self.inner.read_line(&mut line)? == 0 || !line.ends_with('\n') {
+            // end of stream before (or inside) the chunk-size line: "0" cut off from "05\r\n" is
+            // not a last-chunk
             return Err(io::Error::new(ErrorKind::UnexpectedEof, "chunk size eof"));
         }
         let hex = line
